@@ -3,7 +3,7 @@
    map_to_full_grid, grid_to_points); tie H by correspondence (harness/c07_impl.py).  All parameters (ring, two
    geometries, spaces, rule, kernel, element lists) universally quantified. *)
 From Coq Require Import List Arith.
-From BV Require Import AssemblyB.Defs AssemblyB.Model AssemblyB.PotModel AssemblyB.Decomposition AssemblyB.TwoGrids.
+From BV Require Import AssemblyB.Defs AssemblyB.Model AssemblyB.PotModel AssemblyB.Decomposition AssemblyB.TwoGrids AssemblyB.PropLemmas.
 
 (* with grids_identical = false the regular model integrates all pairs (no adjacency skipping, no singular part)
    and each column J is the potential of the J-th trial basis function, evaluated at the test grid's quadrature
@@ -17,7 +17,7 @@ Theorem C07_two_grid_equals_tested_potential :
   sumf (o0 RO) (oadd RO) (fun e => sumf (o0 RO) (oadd RO) (fun p =>
       omul RO (omul RO (omul RO (q_w p) (g_intel gt e)) (test_fun RO st I e p))
               (potential_eval RO gs ss quad kern Es (unit_vec RO J) (xt RO gt e p))) quad) Et.
-Proof. intros; apply two_grid_equals_tested_potential; assumption. Qed.
+Proof. exact @C07_two_grid_equals_tested_potential_l. Qed.
 Print Assumptions C07_two_grid_equals_tested_potential.
 
 (* the test points are enumerated as grid_to_points does: point npts*e + q = q-th rule point of element e *)
@@ -45,7 +45,7 @@ Theorem C07_mfield :
           (dot3 (oadd RO) (omul RO) (piola RO gt e i (q_u p) (q_v p))
              (mfield_potential RO gs ss quad kern Es dist ik (full_coeffs RO ss Es (unit_vec RO J)) (xt RO gt e p)))))
       quad) Et).
-Proof. intros; apply mfield_two_grid_equals_tested_potential; assumption. Qed.
+Proof. exact @C07_mfield_l. Qed.
 Print Assumptions C07_mfield.
 
 (* electric field, PARTIAL: the boundary kernel uses the div-div (weak) form, the potential kernel the analytic
@@ -69,9 +69,5 @@ Theorem C07_efield_partial :
           (dot3 (oadd RO) (omul RO) (piola RO gt e i (q_u p) (q_v p))
              (efield_potential_vec RO gs ss quad kern Es mik (full_coeffs RO ss Es (unit_vec RO J)) (xt RO gt e p)))))
       quad) Et.
-Proof.
-  intros A RO Hring gt gs st ss quad kern Et Es mik ik I J Hnt Hns HEs. split.
-  - exact (efield_loc_split gt gs quad kern mik ik).
-  - exact (efield_vec_two_grid gt gs st ss quad kern Et Es mik Hnt Hns HEs I J).
-Qed.
+Proof. exact @C07_efield_partial_l. Qed.
 Print Assumptions C07_efield_partial.
